@@ -114,7 +114,7 @@ def _task(rng, n, horizon, demand, jid, k, force_tags=False, avoid=()):
     return t, loc
 
 
-FEATURES = ('compat', 'group', 'unreach', 'mdim', 'skills2')
+FEATURES = ('compat', 'group', 'unreach', 'mdim', 'skills2', 'reloads', 'order', 'value')
 
 
 def gen_problem(rng, njobs=None, metric=None, nlocs=None, tight=None, multi=True, skills=True, limits=True, features=None):
@@ -293,6 +293,66 @@ def add_features(frng, problem, matrix, feats, tight=False):
                 for t in deli[1:]:
                     t['demand'] = [0] * k
                 deli[0]['demand'] = [tot[d] - sum(t['demand'][d] for t in deli[1:]) for d in range(k)]
+    if 'reloads' in feats:
+        # multi-trip: small capacities, reloads on most shifts, and extra load (static deliveries + shipments that can be
+        # picked up in one reload interval and delivered in another) so that more than one trip is needed
+        horizon = 400
+        chosen = [v for v in vehicles if frng.chance(4, 5)] or [vehicles[0]]
+        for v in chosen:
+            v['capacity'] = [frng.choice([2, 2, 3, 4])] + list(v['capacity'][1:])
+            for sh in v['shifts']:
+                if not frng.chance(4, 5):
+                    continue
+                start_loc = sh['start']['location']['index']
+                e1 = secs(sh['start']['earliest'])
+                rl = []
+                for k in range(frng.choice([1, 1, 2])):
+                    r = {'location': {'index': frng.choice([start_loc, start_loc, frng.below(n)])}, 'duration': frng.choice([0, 1, 2, 5])}
+                    if frng.chance(1, 4):
+                        a = e1 + frng.range(0, 150)
+                        r['times'] = [[rfc(a), rfc(a + frng.range(60, 500))]]
+                    if frng.chance(1, 3):
+                        r['tag'] = 'rl%d' % (k + 1)
+                    rl.append(r)
+                sh['reloads'] = rl
+        if not any(sh.get('reloads') for v in vehicles for sh in v['shifts']):
+            sh = vehicles[0]['shifts'][0]
+            sh['reloads'] = [{'location': {'index': sh['start']['location']['index']}, 'duration': 1}]
+        k = max(len(v['capacity']) for v in vehicles)
+        base = len(jobs)
+        for x in range(frng.range(3, 6)):
+            jid = 'j%d' % (base + x + 1)
+            dem = [frng.range(1, 2)] + [frng.choice([0, 1]) for _ in range(k - 1)]
+            if x > 0 and frng.chance(2, 3):
+                t, _ = _task(frng, n, horizon, None, jid, 0)
+                t['demand'] = dem
+                for pl in t['places']:
+                    if frng.chance(2, 3):
+                        pl.pop('times', None)
+                jobs.append({'id': jid, 'deliveries': [t]})
+            else:
+                tp, _ = _task(frng, n, horizon, None, jid, 0, force_tags=True)
+                td, _ = _task(frng, n, horizon, None, jid, 1, force_tags=True)
+                for t in (tp, td):
+                    t['demand'] = list(dem)
+                    for pl in t['places']:
+                        pl.pop('times', None)
+                jobs.append({'id': jid, 'pickups': [tp], 'deliveries': [td]})
+    if 'order' in feats:
+        # task `order` (1..3) on about half of the tasks: a HARD rule with the default objectives (goal_reader.rs)
+        for j in jobs:
+            for _, t in tasks_of(j):
+                if frng.chance(1, 2):
+                    t['order'] = frng.range(1, 3)
+        if not any(t.get('order') for j in jobs for _, t in tasks_of(j)):
+            tasks_of(jobs[0])[0][1]['order'] = 1
+    if 'value' in feats:
+        # job `value` switches the maximize-value objective on (nothing hard to check: it only reorders the search)
+        for j in jobs:
+            if frng.chance(1, 2):
+                j['value'] = frng.range(1, 10)
+        if not any(j.get('value') for j in jobs):
+            jobs[0]['value'] = 5
     if 'unreach' in feats:
         err = [0] * (n * n)
         style = frng.below(4)
@@ -325,6 +385,7 @@ def location_refs(problem):
             locs.append(sh['start']['location'])
             if sh.get('end'):
                 locs.append(sh['end']['location'])
+            locs += [r['location'] for r in sh.get('reloads') or []]
     return locs
 
 
@@ -363,6 +424,7 @@ def solve_case(p, cfg):
 KIND = {'pickup': 0, 'delivery': 1, 'service': 2, 'replacement': 3,
         'departure': 10, 'arrival': 11, 'break': 12, 'reload': 13, 'recharge': 14}
 FOREIGN = 1000000
+RELOAD_JOB = -13           # Spec/Intervals.v RELOAD_JOB: the job id a reload activity is rendered with
 
 
 class Ids:
@@ -388,6 +450,10 @@ class Ids:
         for t in pr['fleet']['vehicles']:
             for s in t.get('skills') or []:
                 self.skills.setdefault(s, len(self.skills) + 1)
+            for sh in t['shifts']:
+                for r in sh.get('reloads') or []:
+                    if r.get('tag') is not None:
+                        self.tags.setdefault(r['tag'], len(self.tags) + 1)
         self.groups, self.compats = {}, {}
         for j in pr['plan']['jobs']:
             if j.get('group') is not None:
@@ -462,17 +528,20 @@ def g_job(ids, j):
     compat = None if j.get('compatibility') is None else ids.compats[j['compatibility']]
     k = max([len(kt[1].get('demand') or [0]) for kt in ts] + [1])
     xdem = [[(list(kt[1].get('demand') or []) + [0] * k)[d] for kt in ts] for d in range(1, k)]
-    return '(mkPJob %s %s %s %s %s %s %s %s %s)' % (z(ids.job(j['id'])), tasks, 'true' if static else 'false', zlist(sk),
-                                                 zlist(one), zlist(none), zopt(group), zopt(compat), lst(xdem, zlist))
+    orders = [int(kt[1].get('order') or 0) for kt in ts]
+    return '(mkPJob %s %s %s %s %s %s %s %s %s %s)' % (z(ids.job(j['id'])), tasks, 'true' if static else 'false', zlist(sk),
+                                                    zlist(one), zlist(none), zopt(group), zopt(compat), lst(xdem, zlist),
+                                                    zlist(orders))
 
 
-def g_shift(sh):
+def g_shift(sh, ids=None):
     st = sh['start']
     latest = INF if st.get('latest') is None else secs(st['latest'])
     end = 'None'
     if sh.get('end') is not None:
         end = '(Some (%s, %s))' % (z(sh['end']['location']['index']), z(secs(sh['end']['latest'])))
-    return '(mkPShift %s %s %s %s)' % (z(st['location']['index']), z(secs(st['earliest'])), z(latest), end)
+    return '(mkPShift %s %s %s %s %s)' % (z(st['location']['index']), z(secs(st['earliest'])), z(latest), end,
+                                          lst(sh.get('reloads') or [], lambda r: g_place(ids, r)))
 
 
 def g_vtype(ids, t):
@@ -480,7 +549,7 @@ def g_vtype(ids, t):
     c = t['costs']
     ts = lim.get('tourSize')
     return '(mkPVType %s %s %s %s %s %s %s %s %s %s %s %s)' % (
-        z(ids.vtype(t['typeId'])), zlist([ids.vehicle(v) for v in t['vehicleIds']]), lst(t['shifts'], g_shift),
+        z(ids.vtype(t['typeId'])), zlist([ids.vehicle(v) for v in t['vehicleIds']]), lst(t['shifts'], lambda sh: g_shift(sh, ids)),
         z(t['capacity'][0]), z(int(c.get('fixed') or 0)), z(int(c['distance'])), z(int(c['time'])),
         zlist([ids.skill(s) for s in t.get('skills') or []]),
         zopt(None if lim.get('maxDistance') is None else int(lim['maxDistance'])),
@@ -509,7 +578,7 @@ def _interval(iv):
 
 def g_act(ids, a):
     kind = KIND.get(a.get('type'), 99)
-    job = ids.job(a['jobId']) if kind in (0, 1, 2, 3) else -1
+    job = ids.job(a['jobId']) if kind in (0, 1, 2, 3) else RELOAD_JOB if kind == 13 else -1
     loc = None if a.get('location') is None else a['location']['index']
     iv = _interval(a.get('time'))
     tag = None if a.get('jobTag') is None else ids.tag(a['jobTag'])
@@ -665,6 +734,48 @@ def _flat_tour(t):
     return out
 
 
+def _flat_facts(t):
+    """python twin of Valid.flat_tour with times: [{'kind','loc','arr','start','end'}] (seconds)"""
+    out = []
+    for st in t['stops']:
+        arr = secs(st['time']['arrival'])
+        for a in st['activities']:
+            if a.get('time') is not None:
+                b, e = secs(a['time']['start']), secs(a['time']['end'])
+            else:
+                b, e = secs(st['time']['arrival']), secs(st['time']['departure'])
+            loc = (a.get('location') or st.get('location') or {}).get('index')
+            out.append({'kind': a.get('type'), 'loc': loc, 'arr': arr, 'start': b, 'end': e})
+            arr = e
+    return out
+
+
+def _reload_fits(a, r):
+    if r['location']['index'] != a['loc'] or int(r['duration']) != a['end'] - a['start']:
+        return False
+    tws = [(NEG, INF)] if r.get('times') is None else [(secs(w[0]), secs(w[1])) for w in r['times']]
+    return any(a['start'] == max(a['arr'], w[0]) for w in tws)
+
+
+def _assignable(acts, avail):
+    """python twin of Valid.assign_b: every activity gets its own fitting reload definition"""
+    if not acts:
+        return True
+    return any(_reload_fits(acts[0], r) and _assignable(acts[1:], avail[:i] + avail[i + 1:]) for i, r in enumerate(avail))
+
+
+_COND = None
+
+
+def is_conditional_id(p, jid):
+    """ids of the marker jobs the reader creates per vehicle shift: <vehicleId>_(reload|break|recharge)_<shift>_<n>"""
+    import re
+    if jid in {j['id'] for j in p['problem']['plan']['jobs']}:
+        return False
+    m = re.match(r'^(.*)_(reload|break|recharge)_(\d+)_(\d+)$', str(jid))
+    return bool(m) and any(m.group(1) in vt['vehicleIds'] for vt in p['problem']['fleet']['vehicles'])
+
+
 def py_accounting(p, s):
     """plain re-implementation of Valid.accounted_b on the raw JSON; returns a sorted list of (constructor, arg)"""
     pr = p['problem']
@@ -729,8 +840,17 @@ def py_accounting(p, s):
         if key in seen:
             v.append(('AShiftTwice', k))
         seen.append(key)
-        if any(a[1] not in jobkinds + ('departure', 'arrival') for a in flats[k]):
+        if any(a[1] not in jobkinds + ('departure', 'arrival', 'reload') for a in flats[k]):
             v.append(('AExtraActivity', k))
+        shift = None
+        for vt in pr['fleet']['vehicles']:
+            if shift is None and vt['typeId'] == t.get('typeId') and t.get('vehicleId') in vt['vehicleIds'] \
+                    and t.get('shiftIndex', 0) < len(vt['shifts']):
+                shift = vt['shifts'][t.get('shiftIndex', 0)]
+        if shift is not None:
+            racts = [a for a in _flat_facts(t) if a['kind'] == 'reload']
+            if not _assignable(racts, list(shift.get('reloads') or [])):
+                v.append(('AReload', k))
     return sorted(v)
 
 
@@ -758,15 +878,18 @@ def coq_viols(val, group=None):
 
 
 # ------------------------------------------------------------------------------------------------ bookkeeping traces
-def g_hsol(ids, st):
-    return '(mkH %s %s %s)' % (lst(st['routes'], lambda r: zlist([ids.job(x) for x in r])),
-                               zlist([ids.job(x) for x in st['required']]), zlist([ids.job(x) for x in st['unassigned']]))
+def g_hsol(ids, st, p=None):
+    # the marker jobs of reloads / breaks are not plan jobs: the bookkeeping statement (C02) is about plan jobs
+    keep = (lambda x: True) if p is None else (lambda x: not is_conditional_id(p, x))
+    return '(mkH %s %s %s)' % (lst(st['routes'], lambda r: zlist([ids.job(x) for x in r if keep(x)])),
+                               zlist([ids.job(x) for x in st['required'] if keep(x)]),
+                               zlist([ids.job(x) for x in st['unassigned'] if keep(x)]))
 
 
 def g_trace(p, trace, ids=None):
     ids = ids or Ids(p)
     jobs = zlist([ids.job(j) for j in all_job_ids(p)])
-    return '(run_trace %s %s)' % (jobs, lst(trace, lambda st: g_hsol(ids, st)))
+    return '(run_trace %s %s)' % (jobs, lst(trace, lambda st: g_hsol(ids, st, p)))
 
 
 def vehicle_type_of(p, tour):
